@@ -514,6 +514,9 @@ func (r *R) Gen(ctx sdk.Context, g *hx.Rng) string {
 		if g.Chance(1, 4) {
 			denom = pickStr(g, append(symPool[:4], muPool[:3]...))
 		}
+		if g.Chance(1, 8) { // malformed fee denoms (Params.Validate checks sdk.ValidateDenom)
+			denom = []string{"-", "ab", "1ab", "a b"[:1], "Stake", "st/ake", "st!ake"}[g.Intn(7)]
+		}
 		amt := hx.NewRng(g.U64()).Amount(60).String()
 		if g.Chance(1, 10) {
 			amt = "0"
